@@ -328,27 +328,38 @@ def _conversion_totality(ck, prog):
     eo = prog.cls("lambda_service", "ErrorObject").methods.get("from_exception")
     if eo is None:
         raise AnalysisError("ErrorObject.from_exception not found")
-    p0 = [a.arg for a in eo.node.args.args][-1]
-    par = {}
-    for n in ast.walk(eo.node):
-        for c in ast.iter_child_nodes(n):
-            par[id(c)] = n
-    bad = []
+    # every function that is handed the USER's exception and asks it for its text: the error record, and the packaged retry strategy (whose TypeError
+    # escapes retry_handler after the error object was built - neither RETRY nor FAIL is recorded, the step stays STARTED and runs again in every invocation:
+    # g1_codecs #1, the half my first repair missed)
+    sites = [eo]
+    for fi in prog.functions.values():
+        if not isinstance(fi.node, ast.Lambda) and fi.module.short() == "retries" and any(
+                a.arg == "error" and a.annotation is not None and "Exception" in ast.unparse(a.annotation) for a in fi.node.args.args):
+            sites.append(fi)
     n_str = 0
-    for n in ast.walk(eo.node):
-        if isinstance(n, ast.Call) and isinstance(n.func, ast.Name) and n.func.id in ("str", "repr", "format") and n.args and isinstance(n.args[0], ast.Name) and n.args[0].id == p0:
-            n_str += 1
-            cur, ok = par.get(id(n)), False
-            while cur is not None:
-                if isinstance(cur, ast.Try) and any(n is x for b in cur.body for x in ast.walk(b)) and cur.handlers:
-                    ok = True
-                cur = par.get(id(cur))
-            if not ok:
-                bad.append(n.lineno)
-    ck.floor("user_exception_text_sites", n_str, 1)
-    ck.ob("R1.user-exception-text-is-guarded", fn_construct(eo), not bad,
-          f"`str({p0})` (line {bad[0] if bad else 0}) runs the user's __str__ unprotected: for an Exception class whose __str__ returns None (`return self.message`) "
-          "the TypeError is raised inside the wrapper's `except Exception` arm and leaves the wrapper - a Lambda retry that fails the same way - instead of FAILED")
+    for fx in sites:
+        pnames = {a.arg for a in fx.node.args.args if a.annotation is not None and "Exception" in ast.unparse(a.annotation)}
+        par = {}
+        for n in ast.walk(fx.node):
+            for c in ast.iter_child_nodes(n):
+                par[id(c)] = n
+        bad = []
+        for n in ast.walk(fx.node):
+            if isinstance(n, ast.Call) and isinstance(n.func, ast.Name) and n.func.id in ("str", "repr", "format") and n.args and isinstance(n.args[0], ast.Name) \
+                    and n.args[0].id in pnames:
+                n_str += 1
+                cur, ok = par.get(id(n)), False
+                while cur is not None:
+                    if isinstance(cur, ast.Try) and any(n is x for b in cur.body for x in ast.walk(b)) and cur.handlers:
+                        ok = True
+                    cur = par.get(id(cur))
+                if not ok:
+                    bad.append(n.lineno)
+        ck.ob("R1.user-exception-text-is-guarded", fn_construct(fx), not bad,
+              f"`str(<the user's exception>)` (line {bad[0] if bad else 0}) runs the user's __str__ unprotected: for an Exception class whose __str__ returns None "
+              "(`return self.message`) the TypeError leaves the wrapper's `except Exception` arm (a Lambda retry that fails the same way instead of FAILED) / leaves the "
+              "retry handler before RETRY or FAIL is recorded (the step stays STARTED and is executed again in every invocation)")
+    ck.floor("user_exception_text_sites", n_str, 2)
 
 
 if __name__ == "__main__":
